@@ -138,7 +138,7 @@ Proof.
       destruct (image_at file base t x); [reflexivity|]. rewrite A1. unfold overwrite.
       destruct (Z.leb_spec (p_vaddr ph + base) x); destruct (Z.ltb_spec x (p_vaddr ph + base + p_memsz ph)); cbn [andb].
       * destruct (Nb (x - (p_vaddr ph + base)) ltac:(lia)) as (b & N & C). rewrite C.
-        unfold region_at. destruct (Z.leb_spec (p_vaddr ph + base) x); [|lia]. rewrite N.
+        rewrite region_at_slow_eq. unfold region_at_slow. destruct (Z.leb_spec (p_vaddr ph + base) x); [|lia]. rewrite N.
         rewrite perms_spec by assumption. reflexivity.
       * assert (N : region_at (p_vaddr ph + base) bytes (perms_of_flags (p_flags ph)) x = None)
           by (apply region_at_none; lia). rewrite N. reflexivity.
